@@ -215,7 +215,7 @@ def describe(f, a):
     return describe_arg(f, a)
 
 
-def escapes(f, reg, allowed_callees):
+def escapes(f, reg, allowed_callees, _stack=()):
     """first instruction through which the pointer in `reg` (or a pointer derived by offset) escapes"""
     work = [reg]
     seen = set()
@@ -234,7 +234,19 @@ def escapes(f, reg, allowed_callees):
             elif ins.op == 'call':
                 if ins.is_dbg():
                     continue
-                if (ins.callee_name() or '?') not in allowed_callees:
+                cn_ = ins.callee_name() or '?'
+                ctx_ = getattr(value_origins, 'ctx', None)
+                if ctx_ is not None and cn_ in ctx_.unknown_funcs and cn_ not in _stack:
+                    # a helper introduced by refactoring: follow the pointer into it
+                    g = ctx_.func(cn_)
+                    inner = None
+                    for k, a in enumerate(ins.args):
+                        if a.kind == 'reg' and a.name == r and k < len(g.params):
+                            inner = inner or escapes(g, g.params[k].name, allowed_callees, _stack + (cn_,))
+                    if inner is not None:
+                        return inner
+                    continue
+                if cn_ not in allowed_callees:
                     return ins
             elif ins.op == 'ret':
                 return ins
